@@ -68,7 +68,12 @@ func c03Drivers(thorough bool) []*engine.HDriver {
 	d.Step = func(hist []string, op string) engine.HStep {
 		return step(append(append([]string{}, c03Prelude...), hist...), op)
 	}
-	return []*engine.HDriver{d}
+	// a write that passed the gate waits for the application's approval; when the application answers, the write is
+	// applied only if the stack still holds it: the writer's entity or device having disappeared meanwhile ends it
+	// (a binding that was merely deleted does not: the write was authorised when it was processed)
+	ap := regDriver("write-authorisation-of-writes-waiting-for-approval", []string{"bind:A:e1f1:L1lc:lc:d", "write:A:e1f1:L1lc:limit:ack:2", "entrm:A:1", "entadd:A:1", "appr",
+		"unbind:A:e1f1:L1lc:d", "disc:A", "reconn:A", "fire", "sub:B:e1f1:L1lc:lc:d", "bind:A:e2f1:L1lc:lc:d", "write:A:e2f1:L1lc:limit:ack:1"}, true, true, nil)
+	return []*engine.HDriver{d, ap}
 }
 
 func init() {
@@ -83,6 +88,9 @@ func init() {
 				depth := 4
 				if c.Thorough {
 					depth = 64
+				}
+				if d.Name != "write-authorisation" && !c.Thorough {
+					depth = 6 // small alphabet of one peer
 				}
 				st := engine.RunHistories(c, d, depth, rep)
 				engine.AddHCoverage(rep, d.Name, st, len(d.Alphabet))
